@@ -1387,7 +1387,8 @@ theorem enc_sound {x : Serde.Ext} {vx : Validate.Ext} (hreg : ∀ p s, x.regex p
                 match ent.details with
                 | .newtype _ inner .none _ => encB d σ rid fc s inner
                 | .box t' => encB d σ rid fc s t'
-                | det => encD (encB d σ rid fc) d σ s det) = true := by
+                | det => encD (encB d σ rid fc) d σ s det ||
+                    (singleBranch s).any (fun s' => encB d σ rid fc s' t)) = true := by
             cases s <;> first | (exact absurd rfl hany) | (exact absurd ⟨_, rfl⟩ href) | (simp only [encB] at hc; exact hc)
           cases hg : σ.get t with
           | none => rw [hg] at hc2; simp at hc2
@@ -1412,7 +1413,8 @@ theorem enc_sound {x : Serde.Ext} {vx : Validate.Ext} (hreg : ∀ p s, x.regex p
                   simp only at hc2
                   simp only [de, hg] at hde
                   exact ihc s t' j v f hc2 hde
-                · have hc3 : encD (encB d σ rid fc) d σ s det = true := by
+                · have hc3 : (encD (encB d σ rid fc) d σ s det ||
+                      (singleBranch s).any (fun s' => encB d σ rid fc s' t)) = true := by
                     cases det with
                     | newtype n inner c dfl =>
                       cases c with
@@ -1423,7 +1425,25 @@ theorem enc_sound {x : Serde.Ext} {vx : Validate.Ext} (hreg : ∀ p s, x.regex p
                   have hr : HR x vx d σ (encB d σ rid fc) g := by
                     intro g' hg' s' t' j' v' fd' h hd
                     exact ihg g' (by omega) fc s' t' j' v' fd' h hd
-                  exact encD_sound hreg hr hg hc3 hde
+                  simp only [Bool.or_eq_true] at hc3
+                  rcases hc3 with hc3 | hc3
+                  · exact encD_sound hreg hr hg hc3 hde
+                  · have hdeF : de x σ (f + 1) t j = .ok v := hde
+                    cases hsb : singleBranch s with
+                    | none => rw [hsb] at hc3; simp at hc3
+                    | some s' =>
+                      rw [hsb] at hc3
+                      simp only [Option.any_some] at hc3
+                      have hsub := ihg g (by omega) fc s' t j v (f + 1) hc3 hdeF
+                      unfold singleBranch at hsb
+                      split at hsb
+                      · simp only [Option.some.injEq] at hsb; subst hsb
+                        simp only [validE]; exact countV_NF (by simp) hsub
+                      · simp only [Option.some.injEq] at hsb; subst hsb
+                        simp only [validE]; exact countV_NF (by simp) hsub
+                      · simp only [Option.some.injEq] at hsb; subst hsb
+                        simp only [validE, allV]; exact and3_NF hsub (by simp [NF])
+                      · simp at hsb
 
 /-! ## non-vacuity and a counterexample
 
